@@ -39,6 +39,11 @@ HEADER_BLOCKS = [
     b"Accept: text/html\r\n\r\n",
     b"Accept:text/vnd.wap.wml\r\nX-Up-Devcap-Max-Pdu: 3\r\n\r\n",
     b"ACCEPT: image/gif,text/vnd.wap.wml;q=1\r\nX-WAP-PROFILE: x\r\n\r\n",
+    b"Accept: text/vnd.wap.wml\r\nx-wap-profile: p\r\n\r\n",
+    b"Accept: text/vnd.wap.wml, text/html\r\nx-up-devcap-max-pdu: 1\r\n\r\n",
+    b"Accept:\ttext/vnd.wap.wml\r\nx-wap-profile: p\r\n\r\n",
+    b"Accept: text/vnd.wap.wmlx\r\nx-wap-profile: p\r\n\r\n",
+    b"x-wap-profile: p\r\n\r\nAccept: text/vnd.wap.wml\r\n\r\n",
 ]
 
 PROTO_EXPR = {
@@ -114,13 +119,18 @@ _server = None
 
 
 def _config_for(order):
-    key = tuple(order)
-    c = _cfg.get(key)
+    """ONE configuration object for the whole process; the protocol list is
+    re-set in place for every order (a server whose configuration is changed or
+    reloaded must follow the list it has now)."""
+    c = _cfg.get("cfg")
     if c is None:
         root = rig.fresh_dir("c02")
         c = rig.make_config(root)
-        c.set("protocols.ProtocolMultiplexer", "protocols", "[" + ", ".join(PROTO_EXPR[p] for p in order) + "]")
-        _cfg[key] = c
+        _cfg["cfg"] = c
+    want = "[" + ", ".join(PROTO_EXPR[p] for p in order) + "]"
+    if _cfg.get("cur") != want:
+        c.set("protocols.ProtocolMultiplexer", "protocols", want)
+        _cfg["cur"] = want
     return c
 
 
